@@ -32,6 +32,9 @@ type levelFile struct {
 }
 
 type explorer struct {
+	// tag distinguishes the exchange files and notes of several searches in
+	// one run.
+	tag      string
 	c        *lib.Ctx
 	ops      []op
 	exec     func([]op) execResult
@@ -52,14 +55,15 @@ func exchangeDir(c *lib.Ctx) string {
 	return ""
 }
 
-func (x *explorer) run() {
+// run returns false if the search was cut short.
+func (x *explorer) run() (complete bool) {
 	c := x.c
 	dir := exchangeDir(c)
 	n, me := c.ShardN, c.ShardI
 	if dir == "" {
 		if n > 1 {
 			c.EngineError("c10: several shards but no shared directory")
-			return
+			return false
 		}
 		n, me = 1, 0
 	}
@@ -70,7 +74,7 @@ func (x *explorer) run() {
 		// Tell the other shards not to wait for this one.
 		if n > 1 {
 			for d := max(curDepth, 1); d <= x.maxDepth; d++ {
-				_, _ = exchangeWrite(dir, d, me, &levelFile{Stop: true, Err: msg})
+				_, _ = exchangeWrite(dir, x.tag, d, me, &levelFile{Stop: true, Err: msg})
 			}
 		}
 	}
@@ -83,7 +87,7 @@ func (x *explorer) run() {
 	root := x.exec(nil)
 	if root.step.VKey != "" {
 		c.Violation(root.step.VKey, root.step.VDesc, []op{})
-		return
+		return true
 	}
 	seen[lib.Hash(root.step.Key)] = true
 	if me == 0 {
@@ -132,7 +136,7 @@ func (x *explorer) run() {
 						msg := fmt.Sprintf("non-deterministic oracle on %s: first %v, second %v", histString(hist), violKeys(er.viols), violKeys(er2.viols))
 						c.EngineError(msg)
 						abort(msg)
-						return
+						return false
 					}
 					for _, v := range er.viols {
 						if known[v.Key] || level[v.Key] {
@@ -164,9 +168,9 @@ func (x *explorer) run() {
 		all := []levelFile{out}
 		if n > 1 {
 			var err error
-			if all, err = exchange(c, dir, depth, me, n, &out); err != nil {
+			if all, err = exchange(c, dir, x.tag, depth, me, n, &out); err != nil {
 				c.EngineError(err.Error())
-				return
+				return false
 			}
 		}
 		stop := false
@@ -175,7 +179,7 @@ func (x *explorer) run() {
 		for i, lf := range all {
 			if lf.Err != "" {
 				c.EngineError(fmt.Sprintf("shard %d failed: %s", i, lf.Err))
-				return
+				return false
 			}
 			stop = stop || lf.Stop
 			for _, k := range lf.VKeys {
@@ -191,26 +195,26 @@ func (x *explorer) run() {
 			}
 		}
 		if stop {
-			c.NotExhaustive("time budget")
-			c.Note("bfs_depth_completed", fmt.Sprint(depth-1))
-			return
+			c.NotExhaustive("time budget (search " + x.tag + ", level " + fmt.Sprint(depth) + ")")
+			c.Note(x.tag+"_depth_completed", fmt.Sprint(depth-1))
+			return false
 		}
 		c.Max("max_depth", int64(depth))
-		c.Note("bfs_depth_completed", fmt.Sprint(depth))
-		c.Note("bfs_frontier_after_last_level", fmt.Sprint(len(next)))
-		c.Note(fmt.Sprintf("level_%d", depth), fmt.Sprintf("%d states expanded, %d new states, %.1fs", len(frontier), len(next), time.Since(levelStart).Seconds()))
+		c.Note(x.tag+"_depth_completed", fmt.Sprint(depth))
+		c.Note(fmt.Sprintf("%s_level_%d", x.tag, depth), fmt.Sprintf("%d states expanded, %d new states, %.1fs", len(frontier), len(next), time.Since(levelStart).Seconds()))
 		if me == 0 && len(next) > 0 {
 			c.Sample(map[string]any{"depth": depth, "new_states": len(next), "example_history": histString(next[len(next)/2])})
 		}
 		frontier = next
 		if x.maxStates > 0 && len(seen) >= x.maxStates && depth < x.maxDepth {
-			c.NotExhaustive(fmt.Sprintf("state cap %d reached after depth %d", x.maxStates, depth))
-			return
+			c.NotExhaustive(fmt.Sprintf("state cap %d reached after depth %d (search %s)", x.maxStates, depth, x.tag))
+			return false
 		}
 	}
 	if len(frontier) == 0 {
-		c.Note("bfs_closed", "true: no new states at the last level; every reachable state of this alphabet was visited")
+		c.Note(x.tag+"_closed", "true: no new states at the last level; every reachable state of this alphabet was visited")
 	}
+	return true
 }
 
 func violKeys(vs []viol) (l []string) {
@@ -232,30 +236,30 @@ func sameViols(a, b []viol) bool {
 	return true
 }
 
-func levelName(dir string, depth, i int) string {
-	return filepath.Join(dir, fmt.Sprintf("c10-level-%d-shard-%d.json", depth, i))
+func levelName(dir, tag string, depth, i int) string {
+	return filepath.Join(dir, fmt.Sprintf("c10-%s-level-%d-shard-%d.json", tag, depth, i))
 }
 
 // exchangeWrite publishes a level file atomically; an existing file is kept.
-func exchangeWrite(dir string, depth, me int, out *levelFile) (wrote bool, err error) {
-	if _, err = os.Stat(levelName(dir, depth, me)); err == nil {
+func exchangeWrite(dir, tag string, depth, me int, out *levelFile) (wrote bool, err error) {
+	if _, err = os.Stat(levelName(dir, tag, depth, me)); err == nil {
 		return false, nil
 	}
 	data, err := json.Marshal(out)
 	if err != nil {
 		return false, err
 	}
-	tmp := levelName(dir, depth, me) + ".tmp"
+	tmp := levelName(dir, tag, depth, me) + ".tmp"
 	if err = os.WriteFile(tmp, data, 0o644); err != nil {
 		return false, err
 	}
-	return true, os.Rename(tmp, levelName(dir, depth, me))
+	return true, os.Rename(tmp, levelName(dir, tag, depth, me))
 }
 
 // exchange publishes this shard's level file and waits for the others.
-func exchange(c *lib.Ctx, dir string, depth, me, n int, out *levelFile) (all []levelFile, err error) {
-	name := func(i int) string { return levelName(dir, depth, i) }
-	if _, err = exchangeWrite(dir, depth, me, out); err != nil {
+func exchange(c *lib.Ctx, dir, tag string, depth, me, n int, out *levelFile) (all []levelFile, err error) {
+	name := func(i int) string { return levelName(dir, tag, depth, i) }
+	if _, err = exchangeWrite(dir, tag, depth, me, out); err != nil {
 		return nil, err
 	}
 	all = make([]levelFile, n)
